@@ -174,6 +174,8 @@ struct RFont {
     os2: Vec<u8>,
     post: Vec<u8>,
     hhea: Vec<u8>,
+    head_box: [i16; 4],
+    head_flags: u16,
 }
 
 fn read_font(data: &[u8]) -> Result<RFont, String> {
@@ -218,32 +220,55 @@ fn read_font(data: &[u8]) -> Result<RFont, String> {
         os2: table_bytes(data, &dir, "OS/2").map(|b| b.to_vec()).unwrap_or_default(),
         post: table_bytes(data, &dir, "post").map(|b| b.to_vec()).unwrap_or_default(),
         hhea: hhea.to_vec(),
+        head_box: [bi16(head, 36).ok_or("head")?, bi16(head, 38).ok_or("head")?, bi16(head, 40).ok_or("head")?, bi16(head, 42).ok_or("head")?],
+        head_flags: be16(head, 16).ok_or("head")?,
     })
 }
 
-/// xMin of the outline of a glyph as drawn (components translated; None if a transform or a
-/// point-matching component is involved - those are not judged).
-fn outline_xmin(f: &RFont, gid: usize, depth: usize) -> Option<Option<i32>> {
+/// Box [xMin, yMin, xMax, yMax] of the outline of a glyph as drawn (components translated, any depth;
+/// outer None if a transform or a point-matching component is involved - those are not judged; inner
+/// None if nothing is drawn).
+fn outline_box(f: &RFont, gid: usize, depth: usize) -> Option<Option<[i32; 4]>> {
     let g = f.glyphs.get(gid)?;
     match g.kind {
         "empty" => Some(None),
-        "simple" => Some(g.pts.iter().map(|p| p.0).min()),
+        "simple" => {
+            let xs = g.pts.iter().map(|p| p.0);
+            let ys = g.pts.iter().map(|p| p.1);
+            Some(Some([xs.clone().min()?, ys.clone().min()?, xs.max()?, ys.max()?]))
+        }
         _ => {
-            if depth > 4 {
+            if depth > 8 {
                 return None;
             }
-            let mut best: Option<i32> = None;
+            let mut best: Option<[i32; 4]> = None;
             for (c, off) in g.comps.iter().zip(g.pts.iter()) {
                 if !c.xy || c.transform {
                     return None;
                 }
-                if let Some(m) = outline_xmin(f, c.gid as usize, depth + 1)? {
-                    let v = m + off.0;
-                    best = Some(best.map_or(v, |b| b.min(v)));
+                if let Some(m) = outline_box(f, c.gid as usize, depth + 1)? {
+                    let v = [m[0] + off.0, m[1] + off.1, m[2] + off.0, m[3] + off.1];
+                    best = Some(match best {
+                        None => v,
+                        Some(b) => [b[0].min(v[0]), b[1].min(v[1]), b[2].max(v[2]), b[3].max(v[3])],
+                    });
                 }
             }
             Some(best)
         }
+    }
+}
+
+fn outline_xmin(f: &RFont, gid: usize, depth: usize) -> Option<Option<i32>> {
+    outline_box(f, gid, depth).map(|b| b.map(|b| b[0]))
+}
+
+/// Header box of a glyph record as JSON ([] for an empty glyph).
+fn hbox_json(g: &RGlyph) -> Value {
+    if g.kind == "empty" {
+        json!([])
+    } else {
+        json!([g.bbox[0], g.bbox[1], g.bbox[2], g.bbox[3]])
     }
 }
 
@@ -380,10 +405,9 @@ fn read_ivs(d: &[u8]) -> Option<Value> {
         let o = be32(d, 8 + 4 * k)? as usize;
         let item_count = be16(d, o)? as usize;
         let wdc = be16(d, o + 2)?;
-        if wdc & 0x8000 != 0 {
-            return None; // LONG_WORDS: COLR only
-        }
-        let words = wdc as usize;
+        // LONG_WORDS: the word columns hold int32, the others int16
+        let long = wdc & 0x8000 != 0;
+        let words = (wdc & 0x7FFF) as usize;
         let ric = be16(d, o + 4)? as usize;
         let ri: Vec<u16> = (0..ric).map(|i| be16(d, o + 6 + 2 * i)).collect::<Option<_>>()?;
         let mut at = o + 6 + 2 * ric;
@@ -391,7 +415,15 @@ fn read_ivs(d: &[u8]) -> Option<Value> {
         for _ in 0..item_count {
             let mut row = Vec::new();
             for c in 0..ric {
-                if c < words {
+                if long {
+                    if c < words {
+                        row.push(be32(d, at)? as i32);
+                        at += 4;
+                    } else {
+                        row.push(bi16(d, at)? as i32);
+                        at += 2;
+                    }
+                } else if c < words {
                     row.push(bi16(d, at)? as i32);
                     at += 2;
                 } else {
@@ -721,8 +753,18 @@ fn loads_as_static(out: &[u8]) -> (bool, bool) {
     }
 }
 
+/// What the specification says about the location of a generated instance: the normalised tuple it
+/// computes from the user tuple (the judge evaluates the model there), the tolerance of the reported
+/// tuple per axis, and the acceptable interval of every output number.
+struct SpecSide<'a> {
+    expect: Option<&'a Value>,
+    norm: Option<&'a Value>,
+    ntol: Value,
+}
+
 /// Events for one instance of one source font.
 /// `src`: the source font as read independently; `gvar`/`hvar`/`mvar`: raw table bytes of the source.
+/// `reported`: the normalised tuple returned by instance().
 #[allow(clippy::too_many_arguments)]
 fn emit_instance(
     r: &mut Rec,
@@ -733,12 +775,16 @@ fn emit_instance(
     mvar: Option<&(Vec<(String, u16, u16)>, Value)>,
     user: &[i32],
     out: &[u8],
-    coords: &[i64],
+    reported: &[i64],
     glyph_limit: usize,
-    expect: Option<&Value>,
-    norm: Option<&Value>,
+    spec: &SpecSide,
 ) {
-    let norm = norm.cloned().unwrap_or_else(|| json!([]));
+    let expect = spec.expect;
+    let norm = spec.norm.cloned().unwrap_or_else(|| json!([]));
+    let ntol = spec.ntol.clone();
+    // generated fonts are judged where the specification places the instance, repository fonts
+    // where instance() says it is (normalisation is C13's there)
+    let coords: Value = if spec.norm.is_some() { norm.clone() } else { json!(reported) };
     let (loads, is_var) = loads_as_static(out);
     let of = match read_font(out) {
         Ok(f) => f,
@@ -747,11 +793,23 @@ fn emit_instance(
             return;
         }
     };
+    // union of the header boxes of the written glyphs that draw something
+    let mut ubox: Option<[i32; 4]> = None;
+    for g in of.glyphs.iter().filter(|g| g.kind != "empty") {
+        let v = [g.bbox[0] as i32, g.bbox[1] as i32, g.bbox[2] as i32, g.bbox[3] as i32];
+        ubox = Some(match ubox {
+            None => v,
+            Some(b) => [b[0].min(v[0]), b[1].min(v[1]), b[2].max(v[2]), b[3].max(v[3])],
+        });
+    }
     r.ev(case, "Static", json!({"user": user}), json!({"tags": of.tags, "isVariable": is_var, "loads": loads,
-                                                          "glyphs": of.glyphs.len(), "srcGlyphs": src.glyphs.len()}));
+                                                          "glyphs": of.glyphs.len(), "srcGlyphs": src.glyphs.len(),
+                                                          "head": if of.glyphs.is_empty() { json!([]) } else { json!(of.head_box) },
+                                                          "ubox": ubox.map(|b| json!(b)).unwrap_or_else(|| json!([]))}));
     if of.glyphs.len() != src.glyphs.len() || of.metrics.len() != src.metrics.len() {
         return;
     }
+    let lsb_at0 = src.head_flags & 2 != 0;
     if src.glyphs.is_empty() {
         // no glyf table (CFF2): only the horizontal metrics are observed here
         for gid in 0..src.metrics.len().min(glyph_limit) {
@@ -760,9 +818,10 @@ fn emit_instance(
                 "Glyph",
                 json!({"gid": gid, "kind": "cff", "coords": coords, "pts": [], "ends": [],
                        "adv": src.metrics[gid].0, "lsb": src.metrics[gid].1, "xmin": 0, "plain": true,
-                       "hasShared": false, "tuples": [], "ser": [], "hvar": hvar, "exp": [], "norm": norm}),
+                       "hasShared": false, "tuples": [], "ser": [], "hvar": hvar, "exp": [], "norm": norm,
+                       "reported": reported, "ntol": ntol, "hbox": [], "lsbAt0": lsb_at0}),
                 json!({"kind": "cff", "pts": [], "ends": [], "adv": of.metrics[gid].0, "lsb": of.metrics[gid].1,
-                       "xminKnown": false, "xmin": 0, "on": true}),
+                       "xminKnown": false, "xmin": 0, "on": true, "hbox": [], "obox": []}),
             );
         }
     }
@@ -777,7 +836,8 @@ fn emit_instance(
         // components positioned by point matching or transformed: offsets are not varied / the
         // outline xMin is not derived here
         let plain = sg.comps.iter().all(|c| c.xy);
-        let xmin_out = outline_xmin(&of, gid, 0);
+        let obox = outline_box(&of, gid, 0);
+        let xmin_out = obox.map(|b| b.map(|b| b[0]));
         r.ev(
             case,
             "Glyph",
@@ -785,12 +845,15 @@ fn emit_instance(
                    "adv": src.metrics[gid].0, "lsb": src.metrics[gid].1,
                    "xmin": if sg.kind == "empty" { 0 } else { sg.bbox[0] as i32 },
                    "plain": plain, "hasShared": has_shared, "tuples": tuples, "ser": ser, "hvar": hvar,
-                   "exp": expect.and_then(|x| x.get(gid)).cloned().unwrap_or_else(|| json!([])), "norm": norm}),
+                   "exp": expect.and_then(|x| x.get(gid)).cloned().unwrap_or_else(|| json!([])), "norm": norm,
+                   "reported": reported, "ntol": ntol, "hbox": hbox_json(sg), "lsbAt0": lsb_at0}),
             json!({"kind": og.kind, "pts": pts_json(&og.pts), "ends": og.ends, "adv": of.metrics[gid].0,
                    "lsb": of.metrics[gid].1,
                    "xminKnown": matches!(xmin_out, Some(Some(_))) || og.kind == "empty",
                    "xmin": xmin_out.flatten().unwrap_or(0),
-                   "on": sg.on == og.on && sg.comps.iter().map(|c| c.gid).eq(og.comps.iter().map(|c| c.gid))}),
+                   "on": sg.on == og.on && sg.comps.iter().map(|c| c.gid).eq(og.comps.iter().map(|c| c.gid)),
+                   "hbox": hbox_json(og),
+                   "obox": obox.flatten().map(|b| json!(b)).unwrap_or_else(|| json!([]))}),
         );
     }
     if let Some((recs, ivs)) = mvar {
@@ -799,8 +862,22 @@ fn emit_instance(
             r.ev(
                 case,
                 "Metric",
-                json!({"tag": tag, "base": base, "coords": coords, "ivs": ivs, "outer": outer, "inner": inner,
+                json!({"tag": tag, "present": true, "base": base, "coords": coords, "ivs": ivs, "outer": outer, "inner": inner,
                        "lo": metric_range(tag).0, "hi": metric_range(tag).1}),
+                json!({"value": val}),
+            );
+        }
+        // the metrics the MVAR table has no record for must not vary
+        for (tag, _, _, _) in MVAR_FIELDS.iter() {
+            if recs.iter().any(|r| r.0 == *tag) {
+                continue;
+            }
+            let (Some(base), Some(val)) = (metric_value(src, tag), metric_value(&of, tag)) else { continue };
+            r.ev(
+                case,
+                "Metric",
+                json!({"tag": tag, "present": false, "base": base, "coords": coords, "ivs": {"regions": [], "subs": []},
+                       "outer": 0, "inner": 0, "lo": metric_range(tag).0, "hi": metric_range(tag).1}),
                 json!({"value": val}),
             );
         }
@@ -928,11 +1005,233 @@ fn build_case_font(c: &Value) -> Vec<u8> {
     f.build()
 }
 
+// ---- generation 2: general fonts -------------------------------------------------------------------------
+
+/// fvar with the record sizes / offsets of `lay`; axes in whole design units.
+fn fvar_bytes2(axes: &[Vec<i64>], lay: &Value) -> Vec<u8> {
+    let n = axes.len();
+    let axis_size = lay["fvAxisSize"].as_u64().unwrap() as usize;
+    let off = lay["fvOffset"].as_u64().unwrap() as usize;
+    let inst = lay["fvInst"].as_u64().unwrap() as usize;
+    let psid = lay["fvPsid"].as_bool().unwrap();
+    let inst_size = 4 + 4 * n + if psid { 2 } else { 0 };
+    let mut w = W::new();
+    w.u16(1).u16(0).u16(off as u16).u16(2).u16(n as u16).u16(axis_size as u16).u16(inst as u16).u16(inst_size as u16);
+    while w.len() < off {
+        w.u8(0xA5);
+    }
+    let tags = ["AAAA", "BBBB", "CCCC"];
+    for (i, a) in axes.iter().enumerate() {
+        let at = w.len();
+        w.tag(tags[i]).i32((a[0] * 65536) as i32).i32((a[1] * 65536) as i32).i32((a[2] * 65536) as i32).u16(0).u16(256 + i as u16);
+        // a longer axis record: bytes a reader must skip
+        while w.len() < at + axis_size {
+            w.u8(0x5A);
+        }
+    }
+    for k in 0..inst {
+        w.u16(2).u16(0);
+        for a in axes {
+            // instances at the minimum, the maximum, the default, ...
+            w.i32((a[[0, 2, 1][k % 3]] * 65536) as i32);
+        }
+        if psid {
+            w.u16(6);
+        }
+    }
+    w.done()
+}
+
+/// avar 1.0: one segment map per axis (knots raw 2.14; an empty map has no records).
+fn avar_bytes(maps: &[Value]) -> Vec<u8> {
+    let mut w = W::new();
+    w.u16(1).u16(0).u16(0).u16(maps.len() as u16);
+    for m in maps {
+        let knots = m.as_array().unwrap();
+        w.u16(knots.len() as u16);
+        for k in knots {
+            let v = ivec(k);
+            w.i16(v[0] as i16).i16(v[1] as i16);
+        }
+    }
+    w.done()
+}
+
+/// Item variation store with the sub-tables as the case lays them out.
+fn ivs_bytes2(naxes: usize, regions: &[Value], subs: &[Value]) -> Vec<u8> {
+    let nr = regions.len();
+    let region_list_off = 8 + 4 * subs.len();
+    let mut rl = W::new();
+    rl.u16(naxes as u16).u16(nr as u16);
+    for r in regions {
+        for a in r.as_array().unwrap() {
+            let v = ivec(a);
+            rl.i16(v[0] as i16).i16(v[1] as i16).i16(v[2] as i16);
+        }
+    }
+    let mut blobs: Vec<Vec<u8>> = Vec::new();
+    for sb in subs {
+        let ri = ivec(&sb["ri"]);
+        let rows: Vec<Vec<i64>> = sb["rows"].as_array().unwrap().iter().map(ivec).collect();
+        let long = sb["long"].as_bool().unwrap();
+        let words = sb["words"].as_u64().unwrap() as usize;
+        let mut w = W::new();
+        w.u16(rows.len() as u16).u16(words as u16 | if long { 0x8000 } else { 0 }).u16(ri.len() as u16);
+        for i in &ri {
+            w.u16(*i as u16);
+        }
+        for row in &rows {
+            for (c, v) in row.iter().enumerate() {
+                match (long, c < words) {
+                    (true, true) => w.i32(*v as i32),
+                    (true, false) | (false, true) => w.i16(*v as i16),
+                    (false, false) => w.i8(*v as i8),
+                };
+            }
+        }
+        blobs.push(w.done());
+    }
+    let mut w = W::new();
+    w.u16(1).u32(region_list_off as u32).u16(subs.len() as u16);
+    let mut at = region_list_off + rl.len();
+    for b in &blobs {
+        w.u32(at as u32);
+        at += b.len();
+    }
+    w.bytes(&rl.0);
+    for b in &blobs {
+        w.bytes(b);
+    }
+    w.done()
+}
+
+/// Delta-set index map: the entry bytes come from the specification's encoder.
+fn index_map_bytes2(m: &Value) -> Option<Vec<u8>> {
+    if !m["present"].as_bool().unwrap() {
+        return None;
+    }
+    let mut w = W::new();
+    let count = m["count"].as_u64().unwrap();
+    let format = m["format"].as_u64().unwrap() as u8;
+    w.u8(format).u8(m["fmt"].as_u64().unwrap() as u8);
+    if format == 0 {
+        w.u16(count as u16);
+    } else {
+        w.u32(count as u32);
+    }
+    w.bytes(&bvec(&m["data"]));
+    Some(w.done())
+}
+
+/// MVAR with value records of `rec_size` bytes (the bytes after the 8 defined ones are filler).
+fn mvar_bytes2(records: &[(String, u16, u16)], rec_size: usize, ivs: &[u8]) -> Vec<u8> {
+    let mut w = W::new();
+    w.u16(1).u16(0).u16(0).u16(rec_size as u16).u16(records.len() as u16).u16((12 + rec_size * records.len()) as u16);
+    for (k, (tag, o, i)) in records.iter().enumerate() {
+        w.tag(tag).u16(*o).u16(*i);
+        for j in 8..rec_size {
+            w.u8(if j % 2 == 0 { 0x7A } else { (k as u8).wrapping_mul(37).wrapping_add(j as u8) });
+        }
+    }
+    w.bytes(ivs);
+    w.done()
+}
+
+fn build_case_font2(c: &Value) -> Vec<u8> {
+    let axes: Vec<Vec<i64>> = c["axes"].as_array().unwrap().iter().map(ivec).collect();
+    let naxes = axes.len();
+    let gl = c["glyphs"].as_array().unwrap();
+    let mut specs = Vec::new();
+    let mut recs = Vec::new();
+    let mut metrics = Vec::new();
+    let mut tuples: Vec<Option<(Option<Vec<u8>>, Vec<Value>)>> = Vec::new();
+    for (gid, g) in gl.iter().enumerate() {
+        // header box and side bearing as the specification computes them for the default master
+        let b = ivec(&c["boxes"][gid]);
+        let bb = if b.len() == 4 { Some((b[0] as i16, b[1] as i16, b[2] as i16, b[3] as i16)) } else { None };
+        let spec = match g["kind"].as_str().unwrap() {
+            "simple" => {
+                let pts: Vec<Pt> = g["pts"]
+                    .as_array()
+                    .unwrap()
+                    .iter()
+                    .map(|p| Pt { x: p[0].as_i64().unwrap() as i16, y: p[1].as_i64().unwrap() as i16, on: p[2].as_bool().unwrap() })
+                    .collect();
+                let mut contours = Vec::new();
+                let mut s = 0;
+                for e in ivec(&g["ends"]) {
+                    contours.push(pts[s..=e as usize].to_vec());
+                    s = e as usize + 1;
+                }
+                GlyphSpec::Simple { contours, instructions: vec![] }
+            }
+            "composite" => GlyphSpec::Composite {
+                components: g["comps"]
+                    .as_array()
+                    .unwrap()
+                    .iter()
+                    .map(|p| Component { gid: p[0].as_u64().unwrap() as u16, dx: p[1].as_i64().unwrap() as i16, dy: p[2].as_i64().unwrap() as i16, transform: None, flags_extra: 0 })
+                    .collect(),
+                instructions: vec![],
+            },
+            _ => GlyphSpec::Empty,
+        };
+        recs.push(encode_glyph(&spec, bb));
+        specs.push(spec);
+        let xmin = bb.map(|b| b.0 as i64).unwrap_or(0);
+        metrics.push((g["adv"].as_u64().unwrap() as u16, (xmin - g["pp1"].as_i64().unwrap()) as i16));
+        let t = g["gv"]["tuples"].as_array().unwrap().clone();
+        tuples.push(if t.is_empty() {
+            None
+        } else {
+            let sp = if g["gv"]["hasShared"].as_bool().unwrap() { Some(bvec(&g["gv"]["shared"])) } else { None };
+            Some((sp, t))
+        });
+    }
+    let long = c["long"].as_bool().unwrap();
+    let (glyf, loca) = glyf_loca(&recs, long);
+    let mut f = TtFont::new(specs);
+    f.loca_long = long;
+    f.metrics = metrics;
+    f.num_h_metrics = c["nhm"].as_u64().unwrap() as u16;
+    f.cmap = (1..gl.len()).map(|g| (0x40 + g as u32, g as u16)).collect();
+    f.extra_tables.push(("glyf".into(), glyf));
+    f.extra_tables.push(("loca".into(), loca));
+    f.extra_tables.push(("fvar".into(), fvar_bytes2(&axes, &c["lay"])));
+    if c["avar"]["present"].as_bool().unwrap() {
+        f.extra_tables.push(("avar".into(), avar_bytes(c["avar"]["maps"].as_array().unwrap())));
+    }
+    f.extra_tables.push(("gvar".into(), gvar_bytes(naxes, &tuples, long)));
+    if c["hvar"]["present"].as_bool().unwrap() {
+        let ivs = ivs_bytes2(naxes, c["hvar"]["regions"].as_array().unwrap(), c["hvar"]["subs"].as_array().unwrap());
+        let ab = index_map_bytes2(&c["hvar"]["adv"]);
+        let lb = index_map_bytes2(&c["hvar"]["lsb"]);
+        f.extra_tables.push(("HVAR".into(), hvar_bytes(&ivs, ab.as_deref(), lb.as_deref())));
+    }
+    if c["mvar"]["present"].as_bool().unwrap() {
+        let ivs = ivs_bytes2(naxes, c["mvar"]["regions"].as_array().unwrap(), c["mvar"]["subs"].as_array().unwrap());
+        let mut recs: Vec<(String, u16, u16)> = c["mvar"]["recs"]
+            .as_array()
+            .unwrap()
+            .iter()
+            .map(|r| (r["tag"].as_str().unwrap().to_string(), r["outer"].as_u64().unwrap() as u16, r["inner"].as_u64().unwrap() as u16))
+            .collect();
+        recs.sort();
+        f.extra_tables.push(("MVAR".into(), mvar_bytes2(&recs, c["mvar"]["recSize"].as_u64().unwrap() as usize, &ivs)));
+    }
+    f.build()
+}
+
 fn replay(cases: &str, out: &str, dump_dir: Option<&str>) {
     let cases = read_ndjson(cases);
     let mut r = Rec { w: NdWriter::create(out), i: 0, instances: 0, panics: 0, failed: 0 };
     for (ci, c) in cases.iter().enumerate() {
-        let font = build_case_font(c);
+        let gen2 = c["gen"].as_u64() == Some(2);
+        let font = if gen2 { build_case_font2(c) } else { build_case_font(c) };
+        // user values: generation 1 raw 16.16, generation 2 whole design units
+        let uscale: i64 = if gen2 { 65536 } else { 1 };
+        let naxes = c["naxes"].as_u64().unwrap() as usize;
+        let ntol = if gen2 { c["ntol"].clone() } else { json!(vec![0; naxes]) };
         if let Some(d) = dump_dir {
             let _ = std::fs::write(format!("{}/case{}.ttf", d, ci), &font);
         }
@@ -945,12 +1244,13 @@ fn replay(cases: &str, out: &str, dump_dir: Option<&str>) {
         let hvar = table_bytes(&font, &dir, "HVAR").and_then(read_hvar).unwrap_or_else(no_hvar);
         let mvar = table_bytes(&font, &dir, "MVAR").and_then(read_mvar);
         for (ui, u) in c["user"].as_array().unwrap().iter().enumerate() {
-            let user: Vec<i32> = ivec(u).into_iter().map(|v| v as i32).collect();
+            let user: Vec<i32> = ivec(u).into_iter().map(|v| (v * uscale) as i32).collect();
             let case = format!("g{}/u{}", ci, ui);
             r.instances += 1;
             match run_instance(&font, &user) {
                 Inst::Ok(o, coords) => {
-                    emit_instance(&mut r, &case, &src, gvar, &hvar, mvar.as_ref(), &user, &o, &coords, 64, c["expect"].get(ui), c["norm"].get(ui))
+                    let spec = SpecSide { expect: c["expect"].get(ui), norm: c["norm"].get(ui), ntol: ntol.clone() };
+                    emit_instance(&mut r, &case, &src, gvar, &hvar, mvar.as_ref(), &user, &o, &coords, 64, &spec)
                 }
                 Inst::Err(e) => {
                     if e.starts_with("Panic:") {
@@ -1024,7 +1324,8 @@ fn record_font(r: &mut Rec, f: &VarFont, users: &[Vec<i32>], glyph_limit: usize)
         r.instances += 1;
         match run_instance(data, user) {
             Inst::Ok(o, coords) => {
-                emit_instance(r, &case, &src, gvar, &hvar, mvar.as_ref(), user, &o, &coords, glyph_limit, None, None)
+                let spec = SpecSide { expect: None, norm: None, ntol: json!([]) };
+                emit_instance(r, &case, &src, gvar, &hvar, mvar.as_ref(), user, &o, &coords, glyph_limit, &spec)
             }
             Inst::Err(e) => {
                 if e.starts_with("Panic:") {
